@@ -52,7 +52,7 @@ MIN_HITS['quick']['mon:empty'] = 40
 MIN_HITS['quick'].update({'mon:rawmerge': 500, 'batches-as:iterator': 100, 'batches-as:generator': 100})
 MIN_HITS['thorough'].update({'mon:rawmerge': 8000, 'batches-as:iterator': 1500, 'batches-as:generator': 1500})
 MIN_HITS['quick']['mon:allpad'] = 40
-MIN_HITS['quick'].update({'hit:half-precision-evaluation': 20, 'hit:haiku-model-evaluation': 40})
+MIN_HITS['quick'].update({'hit:half-precision-evaluation': 20, 'hit:haiku-model-evaluation': 40, 'hit:big-cell-merge': 12})
 MIN_HITS['thorough'].update({'hit:half-precision-evaluation': 200, 'hit:haiku-model-evaluation': 500})
 MIN_HITS['quick']['mon:debug-global'] = 40
 MIN_HITS['quick']['mon:debug-perclient'] = 40
@@ -733,6 +733,53 @@ def run_half(ctx, fedjax, jax, jnp, rng, case_no):
   ctx.case_done(('half', dname, n, C), sample=wit, klass=['half', 'half:' + dname])
 
 
+def run_bigcell(ctx, fedjax, jax, jnp, rng, case_no):
+  """Hundreds of examples falling into ONE cell of a counting statistic (confusion-matrix cell, token / sequence counts): the raw
+  single-example statistics merged with each other in any association order (left fold without zero, right fold, balanced tree)
+  equal the left fold from zero() -- counts kept in a narrow integer dtype wrap at 256 / 65536."""
+  M = fedjax.metrics
+  n = int([300, 700, 70000][case_no % 3]) if case_no % 6 != 5 else 257
+  n = min(n, 900)            # eager merges: keep it cheap; 70000 is replaced by 900 (> 255 is what matters for uint8)
+  C = 3
+  y, p = np.int32(1), np.array([0.0, 5.0, 1.0], np.float32)
+  seq_y = np.array([1, 2, 0], np.int32)
+  metrics_ = {'ConfusionMatrix': (M.ConfusionMatrix(num_classes=C), {'y': jnp.asarray(y)}, jnp.asarray(p)),
+              'SequenceTokenCount': (M.SequenceTokenCount(masked_target_values=(0,)), {'y': jnp.asarray(seq_y)}, jnp.zeros((3, C))),
+              'SequenceCount': (M.SequenceCount(masked_target_values=(0,)), {'y': jnp.asarray(seq_y)}, jnp.zeros((3, C))),
+              'Accuracy': (M.Accuracy(), {'y': jnp.asarray(y)}, jnp.asarray(p))}
+  with jax.disable_jit():
+    for name, (m, ex, pr) in metrics_.items():
+      wit = {'family': 'bigcell', 'metric': name, 'identical_examples': n}
+      r = ctx.call(f'{name}.evaluate_example', m.evaluate_example, ex, pr, witness=wit)
+      if not r.ok:
+        continue
+      one = r.value
+      try:
+        left0 = m.zero()
+        for _ in range(n):
+          left0 = left0.merge(one)
+        right = one
+        for _ in range(n - 1):
+          right = one.merge(right)
+        level = [one] * n
+        while len(level) > 1:
+          level = [level[i].merge(level[i + 1]) if i + 1 < len(level) else level[i] for i in range(0, len(level), 2)]
+        tree = level[0]
+      except Exception as e:  # pylint: disable=broad-except
+        if not core.fedjax_frames(e):
+          raise
+        ctx.check(False, 'assoc/merge-raised', f'{name}: merging {n} single-example statistics raised {type(e).__name__}', wit)
+        continue
+      ctx.count('hit:big-cell-merge')
+      ref = np.asarray(left0.result(), np.float64)
+      for how, st in (('right fold without zero', right), ('balanced tree', tree)):
+        got = np.asarray(st.result(), np.float64)
+        ctx.check(got.shape == ref.shape and bool(np.allclose(got, ref, rtol=1e-6, atol=1e-6)), 'assoc/many-identical-examples',
+                  f'{name}: {n} identical single-example statistics merged as a {how} give {got.ravel()[:6]}, the left fold from zero() '
+                  f'gives {ref.ravel()[:6]}', dict(wit, association=how))
+  ctx.case_done(('bigcell', n), sample={'family': 'bigcell', 'identical_examples': n}, klass=['bigcell'])
+
+
 def run_haiku(ctx, fedjax, jax, jnp, rng, case_no):
   """A model built by create_model_from_haiku whose forward pass behaves differently (batch-dependently) in training mode: the
   evaluation pass must use exactly the eval_kwargs (none given => the forward pass' own defaults), so its results are invariant
@@ -824,6 +871,8 @@ def run(ctx):
     run_pdpp(ctx, fedjax, jax, jnp, rng)
   for cid, rng in ctx.cases('half', 8 if ctx.quick else 64):
     run_half(ctx, fedjax, jax, jnp, rng, int(cid.split('/')[1]))
+  for cid, rng in ctx.cases('bigcell', 4 if ctx.quick else 24):
+    run_bigcell(ctx, fedjax, jax, jnp, rng, int(cid.split('/')[1]))
   for cid, rng in ctx.cases('haiku', 16 if ctx.quick else 160):
     run_haiku(ctx, fedjax, jax, jnp, rng, int(cid.split('/')[1]))
 
